@@ -1,4 +1,5 @@
 import EaselModel.Msafile.StoRoundTrip
+import EaselModel.Msafile.StoWgtTok
 import EaselModel.Msafile.PhylipWritable
 import EaselModel.Msafile.AbcTables
 /-! Concrete, checkable conditions under which an alignment without annotation is `StoWritable`: text mode, and digital
